@@ -574,7 +574,7 @@ class WebSocketApp:
             )
             reason = close_frame.data[2:]
             if isinstance(reason, bytes):
-                reason = reason.decode("utf-8")
+                reason = reason.decode("utf-8", errors="replace")
             return [close_status_code, reason]
         else:
             # Most likely reached this because len(close_frame_data.data) < 2
